@@ -28,3 +28,20 @@ package configs
 //@   assigns nothing
 //@   ensures[fresh] err == nil ==> fresh(g) && fresh(m)
 //@   ensures[guaranteedwithinmax] err == nil ==> fitsIn(m, g)
+
+// max-applications never increases downwards, and a child under a limited parent must itself be limited
+//@ func checkQueueMaxApplications(cur QueueConfig) (err error)
+//@   props C15
+//@   sweep
+//@   mode nopanic=off
+//@   at[nonincreasing] call configs.checkQueueMaxApplications#1: assert cur.MaxApplications == 0 || (child.MaxApplications != 0 && child.MaxApplications <= cur.MaxApplications)
+
+// a user/group limit is accepted only if it fits in the limit in force for the same name (or, failing that, for the
+// wild card) on the ancestors, and what is handed to the children is the tightened limit
+//@ func checkLimitResource(cur QueueConfig, parentUserLimits, parentGroupLimits map[string]*resources.Resource) (err error)
+//@   props C15
+//@   sweep
+//@   mode nopanic=off
+//@   at[userwithin] call resources.ComponentWiseMin#1: assert arg0 == limitMaxResources && arg1 == existingMax && existingMax == parentUserLimits[user] && fitsIn(existingMax, limitMaxResources)
+//@   at[groupwithin] call resources.ComponentWiseMin#2: assert arg0 == limitMaxResources && arg1 == existingMax && existingMax == parentGroupLimits[group] && fitsIn(existingMax, limitMaxResources)
+//@   at[down] call configs.checkLimitResource#1: assert arg1 == curUserLimits && arg2 == curGroupLimits
